@@ -46,6 +46,7 @@ type Scenario struct {
 	Replicas []Replica       `json:"replicas,omitempty"`
 	FSFaults []FSFault       `json:"fsfaults,omitempty"`
 	Parts    []string        `json:"parts,omitempty"` // string scenarios: top-level pieces of Ops[0].Src
+	C18      *C18Expect      `json:"c18,omitempty"`
 	Note     string          `json:"note,omitempty"`
 	Extra    map[string]any  `json:"extra,omitempty"`
 }
